@@ -36,7 +36,7 @@ TAG = re.compile(r'/\*\s*((?:C\d\d\.[A-Za-z0-9_]+\s*)+)\*/')
 
 def verus_cmd(path, extra=()):
     return ['verus', path, '--output-json', '--time', '--error-format=json',
-            '--multiple-errors', os.environ.get('VERIF_MULTI', '4'), '--no-report-long-running'] + list(extra)
+            '--multiple-errors', os.environ.get('VERIF_MULTI', '8'), '--no-report-long-running'] + list(extra)
 
 
 MISSING = re.compile(r"cannot find (?:function|value|associated function|type|struct, variant or union type|constant) `([A-Za-z_0-9]+)`|"
